@@ -10,6 +10,7 @@ import (
 	"net"
 	"os"
 
+	"github.com/basecomplextech/baselibrary/async"
 	"github.com/basecomplextech/baselibrary/status"
 )
 
@@ -59,6 +60,18 @@ func mpxError(err error) status.Status {
 	}
 
 	return status.WrapError(err).WithCode(codeMpxError)
+}
+
+// contextStatus returns the status of a context which is done.
+//
+// The result is never OK, some cancelled contexts (async.CancelledContext, ClosedContext)
+// report an OK status. Returning it would tell the caller that the operation succeeded.
+func contextStatus(ctx async.Context) status.Status {
+	st := ctx.Status()
+	if st.OK() {
+		return status.Cancelled
+	}
+	return st
 }
 
 func mpxErrorf(format string, args ...any) status.Status {
